@@ -1,4 +1,204 @@
 import TensorModel.Proofs.Kernels
-/-! C12 — property theorems (see Proofs/Kernels.lean for the kernel-level lemmas). -/
+/-!
+  C12 — unary functions and mapped functions.
+  Property theorems only; helper lemmas live in `TensorModel/Proofs/Kernels.lean`
+  (`cell`, `InBuf`, `ReuseFits` are defined there; see the header of `Props/C06.lean`).
+  All theorems hold for an arbitrary scalar function `g : Val → Val`.
+-/
+set_option linter.unusedSimpArgs false
 namespace TM.C12
+open TM
+
+/-! ## generated unary methods (`engUnary`), raw path -/
+
+/-- Safe mode: a fresh clone of `a` whose cell `i` is `g a[i]`; `a`, every pre-existing buffer and the
+    mask heap are untouched. -/
+theorem engUnary_safe (st : St) (g : UnF) (tc kt : List String) (strict : Bool) (a : Dense)
+    (htc : a.dt ∈ tc) (hk : a.dt ∈ kt) (hia : a.requiresIterator = false) (hm : a.mask = none)
+    (hA : InBuf st a.win.buf a.win.off a.win.len) :
+    ∃ out c, engUnary st g tc kt strict a {} = .ok out ∧ out.ret = .fresh c ∧
+      c.ap = { a.ap with fin := true } ∧ c.dt = a.dt ∧ c.win = ⟨st.heap.size, 0, a.win.len, a.win.len⟩ ∧
+      out.st.mheap = st.mheap ∧
+      (∀ i, i < a.win.len → ∃ x, cell st a.win.buf (a.win.off + i) = some x ∧
+        cell out.st c.win.buf i = some (g x)) ∧
+      (∀ b' k, b' < st.heap.size → cell out.st b' k = cell st b' k) := by
+  obtain ⟨st', h, hm', hv, hfr⟩ := engUnary_safe' st g tc kt strict a (by simpa using htc) (by simpa using hk)
+    hia hm hA
+  refine ⟨_, _, h, rfl, rfl, rfl, rfl, hm', ?_, hfr⟩
+  intro i hi
+  exact ⟨_, cell_some_cellD (hA.has i hi), hv i hi⟩
+
+/-- `UseUnsafe()`: `a[i] = g a[i]` in place, `a` is returned, nothing else changes. -/
+theorem engUnary_unsafe (st : St) (g : UnF) (tc kt : List String) (strict : Bool) (a : Dense)
+    (htc : a.dt ∈ tc) (hk : a.dt ∈ kt) (hia : a.requiresIterator = false)
+    (hA : InBuf st a.win.buf a.win.off a.win.len) :
+    ∃ out, engUnary st g tc kt strict a { unsafe_ := true } = .ok out ∧ out.ret = .a ∧
+      out.st.mheap = st.mheap ∧
+      (∀ i, i < a.win.len → ∃ x, cell st a.win.buf (a.win.off + i) = some x ∧
+        cell out.st a.win.buf (a.win.off + i) = some (g x)) ∧
+      (∀ b' k, (b' ≠ a.win.buf ∨ k < a.win.off ∨ a.win.off + a.win.len ≤ k) → cell out.st b' k = cell st b' k) := by
+  obtain ⟨st', h, w⟩ := engUnary_unsafe' st g tc kt strict a (by simpa using htc) (by simpa using hk) hia hA
+  exact ⟨_, h, rfl, w.sem1 hA.has⟩
+
+/-- `WithReuse(r)`: `r[i] = g a[i]` (copy, then in place); `r` is returned; nothing outside the window
+    of `r` changes — in particular `a` is unchanged when it does not overlap `r`'s window. -/
+theorem engUnary_reuse (st : St) (g : UnF) (tc kt : List String) (strict : Bool) (a r : Dense)
+    (htc : a.dt ∈ tc) (hk : a.dt ∈ kt) (hia : a.requiresIterator = false) (hir : r.requiresIterator = false)
+    (hr : ReuseFits r a.shape a.dt a.ap.o.col) (hlen : r.win.len = a.win.len)
+    (hA : InBuf st a.win.buf a.win.off a.win.len) (hR : InBuf st r.win.buf r.win.off r.win.len) :
+    ∃ out, engUnary st g tc kt strict a { reuse := some r } = .ok out ∧ out.ret = .reuse ∧
+      out.reuse = some r ∧ out.st.mheap = st.mheap ∧
+      (∀ i, i < r.win.len → ∃ x, cell st a.win.buf (a.win.off + i) = some x ∧
+        cell out.st r.win.buf (r.win.off + i) = some (g x)) ∧
+      (∀ b' k, (b' ≠ r.win.buf ∨ k < r.win.off ∨ r.win.off + r.win.len ≤ k) → cell out.st b' k = cell st b' k) := by
+  obtain ⟨st', h, w⟩ := engUnary_reuse' st g tc kt strict a r (by simpa using htc) (by simpa using hk) hia hir hr
+    hlen hA hR
+  exact ⟨_, h, rfl, rfl, w.sem1 (by rw [hlen]; exact hA.has)⟩
+
+/-- Refusal by type class (`unaryCheck`): an error value, whatever the options; no state. -/
+theorem engUnary_refuses (st : St) (g : UnF) (tc kt : List String) (strict : Bool) (a : Dense) (o : Opts)
+    (h : a.dt ∉ tc) : engUnary st g tc kt strict a o = .error (.err "typeclass a") :=
+  engUnary_refuses' st g tc kt strict a o (by simpa using h)
+
+/-- the type classes of the generated unary methods: e.g. `Sqrt` admits exactly the float/complex types -/
+example : (unaryClasses.lookup "sqrt") = some (floatcmplxTypes, floatcmplxTypes) := by decide
+
+/-! ## the unary iterator kernel -/
+
+/-- `E.<Op>Iter`: `a[i] = g a[i]` at every valid iterator offset; positions whose validity flag is
+    clear (masked) are skipped; no other cell changes. -/
+theorem kUnIter_sem (st : St) (a : Win) (g : UnF) (ia : ItS)
+    (hr : InRange ia a.len) (hnd : (ia.map (·.1)).Nodup) (hA : InBuf st a.buf a.off a.len) :
+    ∃ st', kUnIter st a g ia = .ok st' ∧ st'.mheap = st.mheap ∧
+      (∀ i, (i, true) ∈ ia → ∃ x, cell st a.buf (a.off + i.toNat) = some x ∧
+        cell st' a.buf (a.off + i.toNat) = some (g x)) ∧
+      (∀ i, (i, false) ∈ ia → cell st' a.buf (a.off + i.toNat) = cell st a.buf (a.off + i.toNat)) ∧
+      (∀ b' k', (b' ≠ a.buf ∨ ∀ i, (i, true) ∈ ia → k' ≠ a.off + i.toNat) → cell st' b' k' = cell st b' k') := by
+  obtain ⟨st', h, hm, _, hv, hfr⟩ := kUnIter_spec st a g ia hr hnd hA.has
+  refine ⟨st', h, hm, ?_, ?_, hfr⟩
+  · intro i hi
+    have := hr _ hi
+    exact ⟨_, cell_some_cellD (hA.has.at this.1 this.2), hv i hi⟩
+  · intro i hi
+    apply hfr
+    refine Or.inr (fun i' hi' he => ?_)
+    have := nodup_fst_flag hnd hi hi'
+    have h1 := hr _ hi
+    have h2 := hr _ hi'
+    simp only at h1 h2
+    omega
+
+/-! ## `StdEng.Map` (`Dense.Apply`) -/
+
+/-- Safe mode, no reuse, on a non-view contiguous tensor: `g` is applied to a *clone* of the operand's
+    data; the operand and every pre-existing buffer are untouched. -/
+theorem engMap_safe (st : St) (g : UnF) (mt : List String) (a : Dense)
+    (hmt : a.dt ∈ mt) (hmz : a.isMaterializable = false) (hia : a.requiresIterator = false)
+    (hm : a.mask = none) (hsz : (a.win.len : Int) = totalSize a.shape)
+    (hA : InBuf st a.win.buf a.win.off a.win.len) :
+    ∃ out c, engMap st g mt a {} = .ok out ∧ out.ret = .fresh c ∧ out.st.mheap = st.mheap ∧
+      c.win = ⟨st.heap.size, 0, a.win.len, a.win.len⟩ ∧ c.ap.shape = a.shape ∧ c.dt = a.dt ∧
+      (∀ i, i < a.win.len → ∃ x, cell st a.win.buf (a.win.off + i) = some x ∧
+        cell out.st c.win.buf i = some (g x)) ∧
+      (∀ b' k, b' < st.heap.size → cell out.st b' k = cell st b' k) := by
+  obtain ⟨st', c, h, hm', hw, hs, hd, hv, hfr⟩ := engMap_safe' st g mt a (by simpa using hmt) hmz hia hm hsz hA
+  refine ⟨_, c, h, rfl, hm', hw, hs, hd, ?_, hfr⟩
+  intro i hi
+  rw [hw]
+  exact ⟨_, cell_some_cellD (hA.has i hi), hv i hi⟩
+
+/-- The expected statement for `Map` with a reuse tensor, parameterised by a side condition relating
+    the initial contents of the reuse tensor and of the operand: the reuse tensor receives `g a[i]`. -/
+def MapReuseStmt (side : St → Dense → Dense → Prop) : Prop :=
+  ∀ (st : St) (g : UnF) (mt : List String) (a r : Dense),
+    a.dt ∈ mt → a.requiresIterator = false → r.requiresIterator = false →
+    ReuseFits r a.shape a.dt a.ap.o.col → totalSize r.shape = totalSize a.shape → r.win.len = a.win.len →
+    InBuf st a.win.buf a.win.off a.win.len → InBuf st r.win.buf r.win.off r.win.len → side st a r →
+    ∃ out, engMap st g mt a { reuse := some r } = .ok out ∧ out.ret = .reuse ∧
+      ∀ i, i < r.win.len → ∃ x, cell st a.win.buf (a.win.off + i) = some x ∧
+        cell out.st r.win.buf (r.win.off + i) = some (g x)
+
+/-- the full statement: no condition on the reuse tensor's initial content -/
+def engMap_reuse_full : Prop := MapReuseStmt (fun _ _ _ => True)
+
+/-- What the model (= the Go code) does (finding F34): with a reuse tensor, `g` is applied to the reuse
+    tensor's *own* data; the operand's data is never read. -/
+theorem engMap_reuse_actual (st : St) (g : UnF) (mt : List String) (a r : Dense)
+    (hmt : a.dt ∈ mt) (hia : a.requiresIterator = false) (hir : r.requiresIterator = false)
+    (hr : ReuseFits r a.shape a.dt a.ap.o.col) (hts : totalSize r.shape = totalSize a.shape)
+    (hR : InBuf st r.win.buf r.win.off r.win.len) :
+    ∃ out r', engMap st g mt a { reuse := some r } = .ok out ∧ out.ret = .reuse ∧ out.reuse = some r' ∧
+      r'.win = r.win ∧ out.st.mheap = st.mheap ∧
+      (∀ i, i < r.win.len → ∃ y, cell st r.win.buf (r.win.off + i) = some y ∧
+        cell out.st r.win.buf (r.win.off + i) = some (g y)) ∧
+      (∀ b' k, (b' ≠ r.win.buf ∨ k < r.win.off ∨ r.win.off + r.win.len ≤ k) → cell out.st b' k = cell st b' k) := by
+  obtain ⟨st', r', h, hw, w⟩ := engMap_reuse_actual' st g mt a r (by simpa using hmt) hia hir hr hts hR
+  exact ⟨_, r', h, rfl, rfl, hw, w.sem1 hR.has⟩
+
+/-- Proved: the expected statement holds only when the reuse tensor already holds the operand's data. -/
+theorem engMap_reuse_partial :
+    MapReuseStmt (fun st a r => ∀ i, i < r.win.len →
+      cell st r.win.buf (r.win.off + i) = cell st a.win.buf (a.win.off + i)) := by
+  intro st g mt a r hmt hia hir hr hts hlen hA hR hside
+  obtain ⟨out, r', h, hret, _, _, _, hv, _⟩ := engMap_reuse_actual st g mt a r hmt hia hir hr hts hR
+  refine ⟨out, h, hret, ?_⟩
+  intro i hi
+  obtain ⟨y, hy, hc⟩ := hv i hi
+  exact ⟨y, by rw [← hside i hi]; exact hy, hc⟩
+
+namespace W
+def st : St := { heap := #[#[.src 0 0, .src 0 1], #[.src 1 0, .src 1 1]] }
+def a : Dense := { ap := { shape := [2], strides := [1] }, win := ⟨0, 0, 2, 2⟩, dt := "f64" }
+def r : Dense := { ap := { shape := [2], strides := [1] }, win := ⟨1, 0, 2, 2⟩, dt := "f64" }
+def g : UnF := fun x => .app1 "g" x
+end W
+
+/-- Concrete run of `a.Apply(g, WithReuse(r))`: cell 0 of `r` becomes `g r[0]`, not `g a[0]`. -/
+theorem engMap_reuse_witness :
+    ∃ out, engMap W.st W.g ["f64"] W.a { reuse := some W.r } = .ok out ∧
+      cell out.st 1 0 = some (.app1 "g" (.src 1 0)) :=
+  ⟨_, rfl, rfl⟩
+
+/-- **F34**: the full statement is false. -/
+theorem engMap_reuse_fails : ¬ engMap_reuse_full := by
+  intro hfull
+  obtain ⟨out, h, _, hv⟩ := hfull W.st W.g ["f64"] W.a W.r (by decide) (by decide) (by decide)
+    ⟨rfl, by decide, by decide, rfl⟩ rfl rfl ⟨_, rfl, by decide⟩ ⟨_, rfl, by decide⟩ trivial
+  obtain ⟨out', h', hc'⟩ := engMap_reuse_witness
+  rw [h] at h'
+  injection h' with h'
+  subst h'
+  obtain ⟨x, hx, hxy⟩ := hv 0 (by decide)
+  have hx' : x = .src 0 0 := by
+    have : cell W.st 0 0 = some (.src 0 0) := rfl
+    rw [show W.a.win.buf = 0 from rfl, show W.a.win.off + 0 = 0 from rfl, this] at hx
+    injection hx with hx; exact hx.symm
+  rw [show W.r.win.buf = 1 from rfl, show W.r.win.off + 0 = 0 from rfl, hc', hx'] at hxy
+  injection hxy with hxy
+  injection hxy with _ hxy
+  cases hxy
+
+/-! ## non-vacuity -/
+namespace Ex
+def st : St := { heap := #[#[.src 0 0, .src 0 1, .src 0 2, .src 0 3], #[.src 1 0, .src 1 1, .src 1 2, .src 1 3]] }
+def ta : Dense := { ap := { shape := [2, 2], strides := [2, 1] }, win := ⟨0, 0, 4, 4⟩, dt := "f64" }
+def tr : Dense := { ap := { shape := [2, 2], strides := [2, 1] }, win := ⟨1, 0, 4, 4⟩, dt := "f64" }
+def g : UnF := fun x => .app1 "g" x
+theorem inA : InBuf st 0 0 4 := ⟨_, rfl, by decide⟩
+theorem inR : InBuf st 1 0 4 := ⟨_, rfl, by decide⟩
+theorem fits : ReuseFits tr ta.shape ta.dt ta.ap.o.col := ⟨rfl, by decide, by decide, rfl⟩
+
+example := engUnary_safe st g floatTypes floatTypes true ta (by decide) (by decide) (by decide) rfl inA
+example := engUnary_unsafe st g floatTypes floatTypes true ta (by decide) (by decide) (by decide) inA
+example := engUnary_reuse st g floatTypes floatTypes true ta tr (by decide) (by decide) (by decide) (by decide)
+  fits rfl inA inR
+example := engUnary_refuses st g floatTypes floatTypes true { ta with dt := "i" } {} (by decide)
+example := kUnIter_sem st ⟨0, 0, 4, 4⟩ g [(0, true), (2, false), (1, true)] (by unfold InRange; decide) (by decide) inA
+example := engMap_safe st g ["f64"] ta (by decide) (by decide) (by decide) rfl (by decide) inA
+example := engMap_reuse_actual st g ["f64"] ta tr (by decide) (by decide) (by decide) fits rfl inR
+/-- the side condition of `engMap_reuse_partial` is satisfiable: reuse ≡ operand -/
+example := engMap_reuse_partial st g ["f64"] ta ta (by decide) (by decide) (by decide)
+  ⟨rfl, by decide, by decide, rfl⟩ rfl rfl inA inA (fun _ _ => rfl)
+end Ex
+
 end TM.C12
